@@ -110,7 +110,7 @@ func (c *FakeCluster) SetOwner(slot, node int) {
 	c.mu.Lock()
 	defer c.mu.Unlock()
 	old := c.owner[slot]
-	if old == node {
+	if _, busy := c.migr[slot]; old == node && !busy {
 		return
 	}
 	// every key of the slot ends up on the new owner: those on the old owner and, when a migration of the slot was
